@@ -235,6 +235,19 @@ def explore(ck, quick, exe, exes, plan, accepted, tmp):
         x = exes[i % len(exes)]
         argv = [x, "twin", str(ck.seed * 7919 + i), str(n), "%x" % b, str(e)]
         jobs.append(dict(argv=argv, timeout=1500 if quick else 7200, env=vlib.base_env({"C18_TMP": tmp}), cwd=tmp))
+    # SQPOLL wake-up protocol (idle poller, overflowed completion queue, submit, require the completion); the flag
+    # sets the kernel rejects (COOP_TASKRUN / TASKRUN_FLAG together with SQPOLL on current kernels) are recorded as skipped
+    sq = B["SQPOLL"]
+    psets = [sq, sq | B["SQ_AFF"], sq | B["COOP_TASKRUN"], sq | B["COOP_TASKRUN"] | B["TASKRUN_FLAG"], sq | B["CQE32"],
+             sq | B["SQE128"], sq | B["SUBMIT_ALL"] | B["SINGLE_ISSUER"], sq | B["CLAMP"] | B["SQE128"] | B["CQE32"]]
+    if not quick:
+        psets += [b for b in accepted if b & sq and not b & UNUSABLE and b not in psets]
+    pjobs = []
+    for i, b in enumerate(psets):
+        e = (1, 2, 4, 1, 8, 2, 1, 16)[i % 8]
+        argv = [exe, "sqpoll", str(ck.seed * 31 + i), str(12 if quick else 60), "%x" % b, str(e)]
+        pjobs.append(dict(argv=argv, timeout=600, env=vlib.base_env({"C18_TMP": tmp}), cwd=tmp))
+    jobs += pjobs
     # set-up / drop cycles under the tracer (all accepted sets, including the ones no operation can run on)
     rnd = vlib.rng(ck.seed, "c18-cycles")
     cyc_sets = list(accepted)
@@ -254,7 +267,7 @@ def explore(ck, quick, exe, exes, plan, accepted, tmp):
     flagsets_run = set()
     for j, r in zip(jobs, res[:len(jobs)]):
         what = "twin:" + " ".join(shlex.quote(a) for a in j["argv"])
-        if ck.consume_result(r, what, expect_rc=(0, 3)):
+        if ck.consume_result(r, what, expect_rc=(0, 3)) and j["argv"][1] == "twin":
             flagsets_run.add(int(j["argv"][4], 16))
     ck.count("flag_sets_with_twin_runs", len(flagsets_run))
     ck.extra["flag_sets_with_twin_runs"] = sorted(fl_names(b) for b in flagsets_run)[:60]
@@ -323,10 +336,13 @@ def run(ck, replay=None):
     ck.assume("argument combinations with two invalid arguments whose error precedence differs between the system call and the io_uring "
               "preparation step are not generated (empty path together with other invalid arguments, tv_nsec >= 1e9)")
     ck.assume("socket state after an asynchronous release (close through the ring) is compared once both sides have settled")
+    ck.assume("the kernel's SQ flags word is read through a second read-only mapping of the ring descriptor, offsets from a scratch io_uring_setup with identical "
+              "parameters; NEED_WAKEUP set before and after a needs_wakeup() call means it was set during the call (only a wake-up clears it)")
     ck.assume("IOPOLL and R_DISABLED rings only take part in the set-up/drop cycles: the listed operations cannot run on them")
     ck.assume("a missing completion shows as a watchdog (inconclusive) unless io_uring_enter returned saying the completions are there")
     return ("seeded batches of 1..ring-size operations (independent, IOSQE_IO_LINK/HARDLINK chains, wake-up pairs; valid and invalid arguments) "
             "on one ring per process for every chosen set-up flag set and ring size; each operation compared with the direct system call on a twin "
             "world (result / errno, buffers, statx fields, descriptor identity, peer address, control messages, directory tree, open-file content, "
-            "socket state); completions matched one-to-one with submitted user_data; set-up/drop cycles traced by sysmon incl. injected mmap failures; "
+            "socket state); completions matched one-to-one with submitted user_data; SQPOLL wake-up protocol rounds (idle poller, overflowed CQ) deciding with needs_wakeup() only, "
+            "checked against the kernel's own SQ flags word; set-up/drop cycles traced by sysmon incl. injected mmap failures; "
             "distinct = (opcode, result class, linked?, ring-size class, flag class) cells plus set-up/drop classes")
